@@ -1,6 +1,8 @@
 use std::process::Command;
 
 fn main() {
+    // `--cfg ax_verif` guards verification-only hooks; declare it so rustc does not warn about it
+    println!("cargo::rustc-check-cfg=cfg(ax_verif)");
     let output = Command::new("git")
         .args(["rev-parse", "HEAD"])
         .output()
